@@ -2,6 +2,8 @@ package harness
 
 import (
 	"fmt"
+	"regexp"
+	"sort"
 	"strings"
 
 	"gopkg.in/yaml.v3"
@@ -46,6 +48,8 @@ type Workload struct {
 	ChordNames []string // names and display symbols
 	ChordSyms  []string // display symbols usable in text (non-empty)
 	AttrNames  []string
+	Dynamics   []string // dynamic signs the tree's own help text lists
+	Edge       bool     // also draw values at the edges of integer ranges (C09, C08)
 }
 
 func (w *Workload) Load(env *Env) error {
@@ -86,6 +90,22 @@ func (w *Workload) Load(env *Env) error {
 	}
 	for _, a := range attrs {
 		w.AttrNames = append(w.AttrNames, a.Name)
+	}
+	// the dynamic signs this tree knows (flag help: "override velocity: p,mp,...")
+	r, err = env.Exec(&Step{Step: simrt.Step{Argv: []string{"write", "--help"}}})
+	if err != nil {
+		return err
+	}
+	if m := regexp.MustCompile(`override velocity: ([A-Za-z,]+)`).FindSubmatch(append(r.Stdout, r.Stderr...)); m != nil {
+		for _, d := range strings.Split(string(m[1]), ",") {
+			if d != "" {
+				w.Dynamics = append(w.Dynamics, d)
+			}
+		}
+		sort.Strings(w.Dynamics)
+	}
+	if len(w.Dynamics) == 0 {
+		w.Dynamics = []string{"pp", "p", "mp", "mf", "f", "ff"}
 	}
 	if len(w.ChordNames) == 0 || len(w.AttrNames) == 0 {
 		return Infraf("empty dictionaries from the tree")
@@ -193,8 +213,8 @@ func (w *Workload) GenTextN(r *model.Rand, n int) Base {
 
 // GenDocCmd draws a `write ...` command with an instances document.
 func (w *Workload) GenDocCmd(r *model.Rand, big bool) Base {
-	o := &model.DocOpts{MaxInsts: 8, ChordNames: w.ChordNames, Settings: r.Chance(2, 3), Meta: r.Chance(1, 2), Unicode: r.Chance(1, 3),
-		BigDegrees: r.Chance(1, 4), RestBias: r.Intn(4), TrailRest: r.Chance(1, 5), OddValues: r.Chance(1, 4)}
+	o := &model.DocOpts{MaxInsts: 8, ChordNames: w.ChordNames, Dynamics: w.Dynamics, Settings: r.Chance(2, 3), Meta: r.Chance(1, 2), Unicode: r.Chance(1, 3),
+		BigDegrees: r.Chance(1, 4), RestBias: r.Intn(4), TrailRest: r.Chance(1, 5), OddValues: r.Chance(1, 4), EdgeValues: w.Edge && r.Chance(1, 10)}
 	if big {
 		o.MaxInsts = 120
 	}
@@ -228,6 +248,12 @@ func (w *Workload) GenDocCmd(r *model.Rand, big bool) Base {
 		b.Tracks = model.Pick(r, []int{1, 2, 3, 4, 5, 8, 16})
 		b.Argv = append(b.Argv, "--track", fmt.Sprint(b.Tracks))
 	}
+	if !big && len(d.Insts) <= 6 && r.Chance(1, 60) {
+		// track counts around the limits of the header and of the reader
+		// (legitimate but heavy: N^2 ticks)
+		b.Tracks = model.Pick(r, []int{32767, 32768, 32769, 40000, 65535})
+		b.Argv = append(b.Argv, "--track", fmt.Sprint(b.Tracks))
+	}
 	if r.Chance(1, 5) {
 		b.Argv = append(b.Argv, "--key", model.Pick(r, model.SupportedKeys))
 	}
@@ -235,7 +261,7 @@ func (w *Workload) GenDocCmd(r *model.Rand, big bool) Base {
 		b.Argv = append(b.Argv, "--bpm", fmt.Sprint(40+r.Intn(200)))
 	}
 	if r.Chance(1, 8) {
-		b.Argv = append(b.Argv, "--velocity", model.Pick(r, []string{"pp", "p", "mp", "mf", "f", "ff"}))
+		b.Argv = append(b.Argv, "--velocity", model.Pick(r, w.Dynamics))
 	}
 	if r.Chance(1, 8) {
 		b.Argv = append(b.Argv, "--meter", model.Pick(r, []string{"3/4", "6/8", "4/4", "5/4"}))
@@ -294,6 +320,20 @@ func (w *Workload) WithDict(r *model.Rand, b *Base) {
 	b.Files["/sim/chords.yml"] = &simrt.FileSpec{Data: []byte(c), Plan: GenPlan(r)}
 	b.Files["/sim/attrs.yml"] = &simrt.FileSpec{Data: []byte(a), Plan: GenPlan(r)}
 	b.Argv = append(b.Argv, "--attr", "/sim/attrs.yml", "--chord", "/sim/chords.yml")
+	if r.Chance(1, 2) {
+		// several definition files; later ones redefine names of earlier ones
+		// (the last definition on the command line must win, on every run)
+		c2 := "- name: MyChord\n  meta:\n    display: my\n  attributes:\n    - Perfect1\n    - Perfect4\n" +
+			"- name: Third\n  meta:\n    display: th\n  attributes:\n    - Perfect1\n    - Minor3\n"
+		c3 := "- name: Third\n  meta:\n    display: th\n  attributes:\n    - Perfect1\n    - Major3\n    - Major7\n" +
+			"- name: MyChild\n  meta:\n    display: my11\n  attributes:\n    - Perfect1\n"
+		a2 := "- name: MyFlat10\n  degree: \"10\"\n- name: Extra13\n  degree: \"13\"\n"
+		b.Files["/sim/chords2.yml"] = &simrt.FileSpec{Data: []byte(c2), Plan: GenPlan(r)}
+		b.Files["/sim/chords3.yml"] = &simrt.FileSpec{Data: []byte(c3), Plan: GenPlan(r)}
+		b.Files["/sim/attrs2.yml"] = &simrt.FileSpec{Data: []byte(a2), Plan: GenPlan(r)}
+		b.Argv = append(b.Argv, "--chord", "/sim/chords2.yml", "--attr", "/sim/attrs2.yml", "--chord", "/sim/chords3.yml")
+		names = append(names, "Third", "th", "my", "my11", "MyChord")
+	}
 	switch b.Class {
 	case "doc":
 		for i := 0; i < 3; i++ {
